@@ -411,7 +411,8 @@ def check_c19(opts):
             return [rand_obj(depth + 1) for _ in range(rnd.randrange(0, 4))]
         return {rnd.choice(['k', 'a b', 'é', 'q"', 'n\n']) + str(i): rand_obj(depth + 1) for i in range(rnd.randrange(0, 4))}
     def objs(n):
-        return [{'id': i, 'v': rand_obj()} for i in range(n)]
+        # every fifth object is falsy-but-not-None ({}): one item per object also then
+        return [({} if i % 5 == 4 else {'id': i, 'v': rand_obj()}) for i in range(n)]
     sizes = [0, 1, 3, 50, 2500 if tier == 'quick' else 9000]
     d = tempfile.mkdtemp(prefix='rxv_c19_')
     try:
